@@ -266,9 +266,11 @@ class Interp:
                     conj.append(z3.Not(b.terms[kb.slot(f)[0]]))
             return z3.And(*conj) if conj else z3.BoolVal(True)
         if isinstance(ka, K.Ref) and isinstance(kb, K.Ref):
-            for kk in (ka, kb):
-                if self.w.find_method(kk.cls, '__eq__') is not None and not self.spec:
-                    raise Unsupported('== on %r goes through __eq__' % (kk,))
+            c = self.w.find_method(ka.cls, '__eq__')
+            if c is not None and not getattr(self, 'identity_eq', False):
+                if not c.pure:
+                    raise Unsupported('== on %r goes through a non-pure __eq__' % (ka,))
+                return z3.Or(a.t == b.t, self.truth(self.call_contract(c, [a, b], {}, None)))
             return a.t == b.t
         if isinstance(ka, K.Seq) and isinstance(kb, K.Seq):
             i = self.p.fresh('eq!i', z3.IntSort())
@@ -315,10 +317,12 @@ class Interp:
             if not isinstance(base, (K.Ref, K._None, K._Bool, K.Atom)):
                 raise Unsupported("'is' on value-semantic kind %r" % (v.kind,))
         saved, self.spec = self.spec, True
+        saved_id, self.identity_eq = getattr(self, 'identity_eq', False), True
         try:
             return self.eq(a, b)
         finally:
             self.spec = saved
+            self.identity_eq = saved_id
 
     def coerce_checked(self, v, kind, label, node=None):
         """coerce, turning an Opt -> non-Opt narrowing into a proof obligation."""
@@ -867,6 +871,13 @@ class Interp:
             v = self.class_const(k.cls, attr)
             if v is not None:
                 return v
+            # field declared only on subclasses: dynamic downcast (AttributeError for the other classes)
+            subs = [c for c in self.w.subclasses(k.cls) if self.w.field_kind(c, attr)[0] is not None]
+            if subs:
+                self.implicit_raise(z3.Or(*[self.p.ctx.dtype(base.t) == self.p.ctx.class_id(c) for c in subs]),
+                                    'AttributeError', 'attribute %s' % attr, node)
+                owner, fk = self.w.field_kind(subs[0], attr)
+                return self.heap_read(base, '%s.%s' % (owner, attr), fk, heap)
             raise Unsupported('attribute %s.%s undeclared (line %s)' % (k.cls, attr,
                                                                         getattr(node, 'lineno', '?')))
         if isinstance(k, (K.Seq, K.Set, K.Map, K._Str, K.Rec)):
